@@ -144,7 +144,7 @@ func encodeMapObligations(e *Env) {
 	e.callOrder("ORDER", "copy-before-sort", em, gate.CallInstr("", "builtin:copy", tEntries, "param:mes"), gate.CallInstr("", "sort.Slice || sort.SliceStable", tEntries, "*"), "the entries are copied before they are sorted")
 	cmp := e.fn("internal/cbor.(*Encoder).EncodeMap$1")
 	e.requireResult("RESULT", cmp, gate.Outcome{Kind: gate.AnyReturn}, 0,
-		"(call:bytes.Compare(call:(*cbor.MapEntryEncoder).KeyBytes(free:*[param:i]),call:(*cbor.MapEntryEncoder).KeyBytes(free:*[param:j])) < const:0)",
+		"(call:bytes.Compare(call:(*cbor.MapEntryEncoder).KeyBytes({free:*|make([]*cbor.MapEntryEncoder,len(param:mes))}[param:i]),call:(*cbor.MapEntryEncoder).KeyBytes({free:*|make([]*cbor.MapEntryEncoder,len(param:mes))}[param:j])) < const:0)",
 		"bytewise order of the encoded keys (strictly less)")
 	e.requireResult("RESULT", e.fn("internal/cbor.(*MapEntryEncoder).KeyBytes"), gate.Outcome{Kind: gate.AnyReturn}, 0,
 		"call:(*bytes.Buffer).Bytes(param:e.keyBuf)", "the encoded key buffer")
